@@ -276,6 +276,13 @@ def field_data(case, where, f, pos, fl, d):
                 return d.iloc[:, 0]
             return d.to_series().reset_index(drop=True)
         if where == "column":
+            if f.get("regex"):
+                # the error carries the (shared, renamed) Column object, whose
+                # name is the LAST matched column: look at the named column
+                # first, the callers also try the other matches
+                m = _NAME_IN_MSG.search(fl.get("message") or "")
+                if m and m.group(1) in d.columns:
+                    return d[m.group(1)]
             return d[fl["schema_name"]]
         if where == "index":
             return d.index.to_series().reset_index(drop=True)
@@ -353,9 +360,13 @@ def classify(case, fl, d):
         return _dtype_rule(case, where, f, pos, fl, d)
 
     if reason == "SERIES_CONTAINS_DUPLICATES":
-        if (f["unique"] and f["nullable"] and data is not None
-                and int(data.isna().sum()) >= 2 and data.dropna().is_unique):
-            return "null-mask-after-unique-emits-duplicate-nulls"
+        datas = [data]
+        if where == "column" and f.get("regex"):
+            datas += [d[c] for c in d.columns if re.fullmatch(f["name"], str(c))]
+        for x in datas:
+            if (f["unique"] and f["nullable"] and x is not None and not x.is_unique
+                    and int(x.isna().sum()) >= 2 and x.dropna().is_unique):
+                return "null-mask-after-unique-emits-duplicate-nulls"
         return None
 
     if reason != "DATAFRAME_CHECK" or fl["check_index"] is None:
